@@ -88,9 +88,16 @@ StepFlush(e) ==
         /\ alarms' = alarms \cup A1 \cup A2 \cup A3
   /\ scen' = scen
 
+\* the real call panicked (or never returned): in the daemon this is the aggregator goroutine dying on a partial
+\* that a member sent.  No operator of PartialCache.tla fails, so this is never conformance.
+StepPanic(e) ==
+  /\ e.ev = "Panic"
+  /\ alarms' = alarms \cup {Alarm("Panicked", e, e.op)}
+  /\ UNCHANGED <<cache, scen>>
+
 TraceNext ==
   /\ l <= Len(TraceLog)
-  /\ LET e == TraceLog[l] IN StepReset(e) \/ StepAppend(e) \/ StepFlush(e)
+  /\ LET e == TraceLog[l] IN StepReset(e) \/ StepAppend(e) \/ StepFlush(e) \/ StepPanic(e)
   /\ l' = l + 1
   /\ op' = op
 
